@@ -7,7 +7,7 @@ MODULE = "GoNfsd.Props.C09"
 
 
 def run(ctx):
-    ok_go, ok_drv = seqlib.build_and_prove(ctx, MODULE)
+    ok_go, ok_drv = seqlib.build_and_prove(ctx, MODULE, extra_parts=["skeleton"])
     if ok_go:
         args = ["-seqs", "30", "-ops", "300", "-c09"] if ctx.tier == "thorough" else ["-seqs", "6", "-ops", "200", "-c09"]
         lines, tr = seqlib.run_seq(ctx, args)
